@@ -236,6 +236,7 @@ class Ctx:
     # -------------------------------------------------------------- verdict
     def finish(self, level, coverage, assumptions=None):
         """Write evidence, print VIOLATION / KNOWN-FINDING lines, return the exit code."""
+        self.finished = True
         known = load_known(self.pid)
         new, printed_known = [], set()
         for v in self.violations:
@@ -364,6 +365,16 @@ def main(run_fn, pid):
     try:
         rc = run_fn(ctx)
     except ToolError as e:
+        # a job that found violations and then could not go on (a hang aborted by the watchdog leaves no
+        # counts, a crashed harness no vectors) has still found them: they are reported, the tool error is a note
+        new_ones = [v for v in ctx.violations if match_known(load_known(pid), v["sig"]) is None]
+        if new_ones and not getattr(ctx, "finished", False):
+            print("note: the run ended early (%s); reporting what was found until then" % e, flush=True)
+            ev = sum(r.get("evaluations", 0) for r in ctx.harness_runs)
+            rc = ctx.finish("exploration", {"evaluations": ev, "distinct_nontrivial": sum(r.get("distinct_nontrivial", 0) for r in ctx.harness_runs),
+                                            "rule": "run ended early: " + str(e), "samples": []},
+                            assumptions=["incomplete run: a job aborted after reporting violations"])
+            sys.exit(rc)
         print("TOOL-ERROR property=%s %s" % (pid, e), flush=True)
         sys.exit(2)
     sys.exit(rc)
